@@ -1,6 +1,7 @@
 """C36 — physical plans survive serialization unchanged: enum tag round trips of the operators'
 own try_to_proto / try_from_proto, plus the standalone conversion pairs."""
 from tagtab import *
+import protocov
 
 TECHNIQUE = 'static analysis: exhaustive evaluation (A1) of enum conversions; inline enum mappings extracted from try_to_proto / try_from_proto by forcing the domain of the wire-typed local'
 EXPLANATION = ('For every physical operator that has both try_to_proto and try_from_proto and a field whose type is a fieldless enum '
@@ -9,7 +10,11 @@ EXPLANATION = ('For every physical operator that has both try_to_proto and try_f
                '(observing the protobuf-typed values it produces) and the decoder with the protobuf-typed local forced to each wire '
                'variant (observing the domain-typed values it produces); decode(encode(v)) = v for every variant. The standalone '
                'domain<->protobuf conversion pairs used by physical plans (JoinSide, JoinType, NullEquality, ...) are checked as in C35. '
-               'Field-level coverage of the messages and equality of whole plans are not decided.')
+               'Field-level agreement: in every try_to_proto of an operator / physical expression / data source (60, closures included) no field '
+               'of a generated message it builds is filled with a constant, None or an empty container, and every field of those messages is '
+               'read in the call tree of the matching try_from_proto (58 pairs) — a field silently dropped on either side makes two '
+               'different plans identical on the wire. The few (message, field) exceptions are frozen in rules/protocov.py, each with the '
+               'reason read in the source. Whether the value written is the RIGHT value, and equality of whole plans, are not decided.')
 ASSUMPTIONS = ['a protobuf enum value travels as the i32 of the same variant (prost)']
 
 
@@ -123,9 +128,16 @@ def run(ctx):
     PHYS = ('JoinSide', 'JoinType', 'NullEquality', 'CompressionTypeVariant', 'CsvQuoteStyle', 'TimeUnit', 'IntervalUnit')
     bad, m = check_pairs(ctx, f, 'enum-tag-roundtrip', select=lambda dom, wire: dom.rsplit('::', 1)[-1] in PHYS)
     ctx.floor('enum-tag-roundtrip', 'standalone conversion pairs used by physical plans', m, 6)
+    # field-level agreement of every operator's own encoder and decoder
+    protocov.check(ctx)
     import common
     st = ctx.st
     probe = common.Ctx(ctx.pid, ctx.tier, st, st, {})
     probe.known = []
+    protocov.check(probe, 'st-enc', 'st-dec', genp='dfscan_selftest::protos::generated::', const_ok={}, unread_ok={}, floors=None)
+    keys = [v['key'] for v in probe.viol]
+    ctx.selftest('coverage rules detect an encoder that writes None for a field (BadEncLimit) and a decoder that ignores a field (BadDecSort), accept GoodLimit',
+                 any(k.startswith('st-enc|') and 'BadEncLimit' in k for k in keys) and any(k.startswith('st-dec|') and 'BadDecSort' in k for k in keys)
+                 and not any('GoodLimit' in k for k in keys))
     b, _ = check_pairs(probe, st, 'st')
     ctx.selftest('round-trip rule detects a decoder that maps RightMark to LeftMark', b >= 1)
